@@ -9,7 +9,8 @@ for f in os.listdir(src):
     if os.path.isfile(os.path.join(src,f)) and os.path.getsize(os.path.join(src,f)) < 400000:
         shutil.copy(os.path.join(src,f), dst)
 conf = ''
-for l in open('/tmp/seed/confirm1.log').read().splitlines() + (open('/tmp/seed/confirm2.log').read().splitlines() if os.path.exists('/tmp/seed/confirm2.log') else []):
+import glob
+for l in sum((open(f).read().splitlines() for f in sorted(glob.glob('/tmp/seed/confirm*.log'))), []):
     if l.startswith(f'{pid}/{n}:'): conf = l
 meta = dict(property=pid, change=int(n), breaks=breaks, needs_to_manifest=needs,
             confirmed_by_me=dict(how='tools/confirm_seed.sh in the scratch worktree /tmp/seed/%s/wt (worktree of /repo HEAD at the time): patch applies, tree builds, ctest 100%% passed, demo exits 0 without the patch and non-zero with it' % pid, result=conf),
